@@ -249,6 +249,64 @@ func c14Isolation() []string {
 		}
 		env.NilValue.Set(reflect.Zero(env.NilValue.Type()))
 	}
+	// one tree, environments that bind different names: whether an assignment declares or updates is decided by the environment
+	// of the run, not by what an earlier run of the same tree found
+	{
+		type mk struct {
+			name string
+			make func() *env.Env
+		}
+		names := []string{"last", "x", "y", "z"}
+		makers := []mk{
+			{"nothing bound", func() *env.Env { return env.NewEnv() }},
+			{"names bound in the run's scope", func() *env.Env {
+				e := env.NewEnv()
+				for _, n := range names {
+					e.Define(n, int64(0))
+				}
+				return e
+			}},
+			{"names bound in a parent scope", func() *env.Env {
+				e := env.NewEnv()
+				for _, n := range names {
+					e.Define(n, int64(0))
+				}
+				return e.NewEnv()
+			}},
+		}
+		show := func(e *env.Env, v interface{}, err error) string {
+			out := fmt.Sprintf("%v|%v", v, err)
+			for _, n := range names {
+				x, gerr := e.Get(n) // the nearest binding seen from the run's scope
+				out += fmt.Sprintf("|%s=%v,%v", n, x, gerr != nil)
+			}
+			return out
+		}
+		for _, src := range []string{"func note(v) { last = v }; note(5); last ?? \"unset\"", "x = 1; x", "func f() { x = 1 }; f(); x ?? \"none\"", "for i in [1] { y = i }; y ?? \"none\"",
+			"if true { z = 2 }; z ?? \"none\"", "func g() { func h() { z = 3 }; h() }; g(); z ?? \"none\"", "try { throw 1 } catch e { y = 4 }; y ?? \"none\"", "x, y = 1, 2; [x, y]", "x += 1; x"} {
+			for _, first := range makers {
+				for _, second := range makers {
+					if first.name == second.name {
+						continue
+					}
+					shared, perr := ankoparser.ParseSrc(src)
+					fresh, _ := ankoparser.ParseSrc(src)
+					if perr != nil {
+						problems = append(problems, "does not parse: "+src)
+						continue
+					}
+					vm.Run(first.make(), nil, shared)
+					e2 := second.make()
+					v2, err2 := vm.Run(e2, nil, shared)
+					e3 := second.make()
+					v3, err3 := vm.Run(e3, nil, fresh)
+					if a, b := show(e2, v2, err2), show(e3, v3, err3); a != b {
+						problems = append(problems, fmt.Sprintf("`%s` run with %s after a run of the same tree with %s gives %s, alone it gives %s", src, second.name, first.name, a, b))
+					}
+				}
+			}
+		}
+	}
 	// import: each importing environment gets its own copy of the package's symbol table
 	fp0 := packagesFingerprint()
 	v1, err1 := run(a, "s = import(\"strings\"); s.ToUpper(\"a\")")
